@@ -112,37 +112,30 @@ def judge(ctx, prop, base, c, cmds, results, trace, step):
                               "P%d exited %s (%s) but its events are in the log" % (o, results[o]["exit"], results[o]["stderr"].strip()[:80]), {"trace": trace + [step]}); return True
     elif not data.startswith(pre) and not rewrote:
         ctx.violation("%s earlier log bytes changed" % prop, "the log no longer starts with its previous content and no rewrite command succeeded", {"trace": trace + [step]}); return True
-    # serial equivalence over the successful commands
-    cand = [ok, list(reversed(ok))] if len(ok) == 2 else [ok]
+    # serial equivalence: the commands that actually ran (everything except lock-busy failures), one at a time in some order,
+    # must give the same success/failure pattern and the same final state
+    ran = [i for i in range(len(cmds)) if not (results[i]["exit"] != 0 and "lock busy" in results[i]["stderr"])]
     got = crash.timeless(g["graph"])
-    matches = False
+    want_pattern = {i: results[i]["exit"] == 0 for i in ran}
+    orders = [ran, list(reversed(ran))] if len(ran) == 2 else [ran]
     details = []
-    for order in cand:
+    matches = False
+    for order in orders:
         exits, tw = serial_twin(base, order, cmds)
+        pattern = {i: e == 0 for i, e in zip(order, exits)}
         details.append((order, exits))
-        if tw == got and all(e == 0 for e in exits):
+        if tw == got and pattern == want_pattern:
             matches = True
             break
-        if tw == got and len(ok) == 1:
-            matches = True
-            break
-    if not matches and ok:
-        # a claim that answered no_ready / a prune with nothing to do may legitimately "succeed" differently in another order: accept equality of state alone
-        for order in cand:
-            exits, tw = serial_twin(base, order, cmds)
-            if tw == got:
-                matches = True
-                break
-    if not matches and ok:
-        ctx.violation("%s concurrent outcome matches no serial order of the acknowledged commands (%s ∥ %s)" % (prop, cmds[0][0]["cmd"], cmds[1][0]["cmd"]),
-                      "exits %s; serial attempts %s; the final state equals neither order" % ([r_["exit"] for r_ in results], details), {"trace": trace + [step]}); return True
-    if not ok and crash.timeless(base.graph()["graph"]) != got:
-        ctx.violation("%s both commands failed but the store changed" % prop, "exits %s" % [r_["exit"] for r_ in results], {"trace": trace + [step]}); return True
+    if not matches:
+        ctx.violation("%s concurrent outcome matches no serial order of the commands that ran (%s ∥ %s)" % (prop, cmds[0][0]["cmd"], cmds[1][0]["cmd"]),
+                      "exits %s; serial attempts (order, exits) %s; no order gives this success/failure pattern with this final state" % ([r_["exit"] for r_ in results], details),
+                      {"trace": trace + [step]}); return True
     return False
 
 
-def explore(ctx, prop, r, kindsA=None, kindsB=None, points="all", b_modes=("complete", "hold"), max_points=4, state_cmds=10):
-    base, v, trace = crash.build_state(ctx, r, state_cmds + r.n(8))
+def explore(ctx, prop, r, kindsA=None, kindsB=None, points="all", b_modes=("complete", "hold"), max_points=4, state_cmds=10, big=0):
+    base, v, trace = crash.build_state(ctx, r, state_cmds + r.n(8), big=big)
     try:
         reqA, agA, labA = marked(r, v, 0, kindsA)
         reqB, agB, labB = marked(r, v, 1, kindsB)
@@ -164,7 +157,7 @@ def explore(ctx, prop, r, kindsA=None, kindsB=None, points="all", b_modes=("comp
             un = [i for i, s in enumerate(stepsA, 1) if s["call"] == "flock" and "LOCK_UN" in s.get("flags", [])]
             lk = [i for i, s in enumerate(stepsA, 1) if s["call"] == "flock" and "LOCK_UN" not in s.get("flags", [])]
             rd = [i for i, s in enumerate(stepsA, 1) if s["call"] in ("read", "pread64") and s["obj"] == "log"]
-            must = sorted(set([1] + lk[:1] + rd[:1] + [u - 1 for u in un[:1]] + un[:1] + [len(pts) - 1]))
+            must = sorted(set([1] + lk[:1] + [l - 1 for l in lk if l > 1] + rd[:1] + [u - 1 for u in un[:1]] + un + [len(pts) - 1]))
             must = [i for i in must if 1 <= i <= len(pts)]
             extra = [i for i in idx if i not in must]
             while len(must) < max_points and extra:
